@@ -250,7 +250,11 @@ func (p *Program) Method(pkg *ssa.Package, typ, name string) *ssa.Function {
 	if !ok {
 		return nil
 	}
-	return p.Prog.LookupMethod(types.NewPointer(t.Type()), pkg.Pkg, name)
+	sel := p.Prog.MethodSets.MethodSet(types.NewPointer(t.Type())).Lookup(pkg.Pkg, name)
+	if sel == nil {
+		return nil
+	}
+	return p.Prog.MethodValue(sel)
 }
 
 // ValueMethod finds a method on the value receiver method set.
@@ -260,7 +264,11 @@ func (p *Program) ValueMethod(pkg *ssa.Package, typ, name string) *ssa.Function 
 	if !ok {
 		return nil
 	}
-	return p.Prog.LookupMethod(t.Type(), pkg.Pkg, name)
+	sel := p.Prog.MethodSets.MethodSet(t.Type()).Lookup(pkg.Pkg, name)
+	if sel == nil {
+		return nil
+	}
+	return p.Prog.MethodValue(sel)
 }
 
 // NamedType returns a named type of a package.
